@@ -31,6 +31,9 @@ func (p phase) String() string {
 	case engine.VsAfterBestmove:
 		return "after-bestmove"
 	case engine.VsInnerMoveDone:
+		if p.b >= 1000 {
+			return fmt.Sprintf("inside-rootmove(d=%d,k=%d)-after-a-move-at-node-depth-%d", p.a, p.b%1000, p.b/1000+1)
+		}
 		return fmt.Sprintf("inside-rootmove(d=%d,k=%d)-after-first-reply", p.a, p.b)
 	}
 	return "?"
@@ -141,7 +144,8 @@ func runSchedule(fen, goCmd string, at phase, cmds []string, holdMs int) schedRe
 		}
 		match := false
 		if at.point == engine.VsInnerMoveDone {
-			match = point == engine.VsInnerMoveDone && a == at.a*1000+at.b && b == 1
+			// at.b = root move index + 1000*(node depth - 1)
+			match = point == engine.VsInnerMoveDone && a == at.a*1000+at.b%1000 && b == at.b/1000+1
 		} else {
 			match = point == at.point && (at.point != engine.VsRootMoveDone && at.point != engine.VsIterationDone || (a == at.a && (at.b < 0 || b == at.b)))
 		}
@@ -321,6 +325,10 @@ func init() {
 				phases = append(phases, phase{engine.VsRootMoveDone, d, nroot - 1})
 				if mode != "c12" || d == 2 {
 					phases = append(phases, phase{engine.VsInnerMoveDone, d, 0}, phase{engine.VsInnerMoveDone, d, nroot - 1})
+					if d >= 3 {
+						// stop noticed deeper in the tree (node depth 2 .. d-1)
+						phases = append(phases, phase{engine.VsInnerMoveDone, d, 1000 * (d - 2)}, phase{engine.VsInnerMoveDone, d, 1000 + (nroot-1)})
+					}
 				}
 			}
 			phases = append(phases, phase{engine.VsBeforeBestmove, 0, 0}, phase{engine.VsAfterBestmove, 0, 0})
@@ -425,7 +433,8 @@ func init() {
 				if point == engine.VsAfterBestmove {
 					exited <- struct{}{}
 				}
-				if holdOnce != nil && point == holdAt.point && (point != engine.VsRootMoveDone || (a == holdAt.a && b == holdAt.b)) {
+				if holdOnce != nil && point == holdAt.point && (point != engine.VsRootMoveDone || (a == holdAt.a && b == holdAt.b)) &&
+					(point != engine.VsInnerMoveDone || (a/1000 == holdAt.a && b == holdAt.b)) {
 					hit := false
 					holdOnce.Do(func() { hit = true })
 					if hit {
@@ -455,7 +464,7 @@ func init() {
 			var script []string
 			nq := 1 + r.intn(6)
 			for q := 0; q < nq; q++ {
-				switch r.intn(9) {
+				switch r.intn(11) {
 				case 0:
 					script = append(script, fmt.Sprintf("perft %d", 1+r.intn(2)))
 				case 1:
@@ -472,8 +481,12 @@ func init() {
 					script = append(script, fmt.Sprintf("go depth %d", 1+r.intn(3)))
 				case 7:
 					script = append(script, "go movetime 15")
-				default:
+				case 8:
 					script = append(script, fmt.Sprintf("go infinite @%d,%d", 1+r.intn(3), r.intn(3)))
+				default:
+					// stop noticed inside the tree: iteration d in 2..4, at a node of depth 1..d-1
+					d := 2 + r.intn(3)
+					script = append(script, fmt.Sprintf("go infinite #%d,%d", d, 1+r.intn(d-1)))
 				}
 			}
 			problem := ""
@@ -482,10 +495,15 @@ func init() {
 				if strings.HasPrefix(c, "go") {
 					expectedBest++
 				}
-				if strings.HasPrefix(c, "go infinite @") {
+				if strings.HasPrefix(c, "go infinite @") || strings.HasPrefix(c, "go infinite #") {
 					var d, k int
-					fmt.Sscanf(c, "go infinite @%d,%d", &d, &k)
-					holdAt = phase{engine.VsRootMoveDone, d, k}
+					if strings.HasPrefix(c, "go infinite @") {
+						fmt.Sscanf(c, "go infinite @%d,%d", &d, &k)
+						holdAt = phase{engine.VsRootMoveDone, d, k}
+					} else {
+						fmt.Sscanf(c, "go infinite #%d,%d", &d, &k)
+						holdAt = phase{engine.VsInnerMoveDone, d, k}
+					}
 					holdOnce = &sync.Once{}
 					release = make(chan struct{})
 					engine.ParseInputLine("go infinite")
